@@ -25,6 +25,7 @@ package masks
 //@   ensures [projection] old(recv.fields) != nil && !isnil(msg) && len(old(recv.fields.Paths)) > 0 ==> msgval(res) == filtered(old(msgval(msg)), old(recv.fields.Paths))
 //@   ensures [empty-mask] old(recv.fields) != nil && !isnil(msg) && len(old(recv.fields.Paths)) == 0 ==> msgval(res) == emptymsg(msg)
 //@   ensures [argument-untouched] msgval(msg) == old(msgval(msg))
+//@   ensures [real] !isnil(msg) ==> sametype(res, msg) && !isnil(res) && (ref(msg) != nil ==> ref(res) != nil)
 //@   modifies nothing
 //@
 //@ func (*ResponseFilter).Filter(msg)
